@@ -53,6 +53,13 @@ def nonmarkov(ctx, drv):
         if ctx.rng.random() < 0.3:      # engineered ties: all delays from a tiny set
             c["delay"] = [[u, v, ctx.rng.choice(["0", "1", "1", "2", "inf"])] for u, v, d in c["delay"]]
             c["dur"] = [ctx.rng.choice(["0", "1", "2", "inf"]) for _ in c["dur"]]
+        if ctx.rng.random() < 0.2:
+            # SELF-LOOPS: u is one of its own neighbours, the rule is asked for a delay from u to u; nothing may change
+            for u in ctx.rng.sample(range(c["n"]), ctx.rng.randint(1, min(2, c["n"]))):
+                if [u, u] not in c["edges"]:
+                    c["edges"].append([u, u])
+                    c["delay"].append([u, u, ctx.rng.choice(["0", "1/4", "1", "2", "inf"])])
+            ctx.count("nonMarkov:self-loops")
         if c.get("recs") and ctx.rng.random() < 0.3:
             # the recovered nodes arrive as a tuple / dict-keys view / one-shot iterator: whatever the function accepts it must
             # treat as "these nodes are recovered" (a TypeError for the iterator is a rejection, not a wrong answer: no verdict)
